@@ -24,9 +24,8 @@ def main(argv):
             data = json.loads(Path(argv[2]).read_text())
             ctx = core.Ctx(prop, "quick", data.get("seed", seed))
             return mod.replay(ctx, data)
-        tier = os.environ.get("VERIF_TIER") or mode
-        if tier not in ("quick", "thorough"):
-            tier = mode
+        # the command line decides the tier (quick_cmd / thorough_cmd); VERIF_TIER only fills in when it is absent
+        tier = mode if mode in ("quick", "thorough") else os.environ.get("VERIF_TIER", "quick")
         ctx = core.Ctx(prop, tier, seed)
         return mod.check(ctx)
     except core.ToolError as e:
